@@ -19,7 +19,8 @@ Cases == UNION { {[h |-> s[1], w |-> s[2], block |-> b, levels |-> lv, route |->
 Full == {[h |-> 100, w |-> 70, block |-> 32, levels |-> lv, route |-> "write_cog", dest |-> d, pre |-> "absent", overwrite |-> FALSE,
           layout |-> ly[1], ns |-> ly[2], dtype |-> dt, nodata |-> nd, rot |-> r, windowed |-> wn, icomp |-> ic, crs |-> cr, pat |-> pt] :
            ly \in {<<"YX", 1>>, <<"SYX", 3>>, <<"YXS", 3>>, <<"YXS", 4>>}, dt \in {"uint8", "int16", "float32", "int8"}, nd \in {<<>>, <<7>>}, r \in BOOLEAN, wn \in BOOLEAN, ic \in BOOLEAN,
-           cr \in {"32633", "4326", "3857"}, lv \in {"l2"}, d \in {"file"},
+           \* utm55s_grs80 / tmerc_airy / laea_custom: CRSs given as PROJ strings WITHOUT a datum or authority code (an EPSG entry may look similar - it is not the same system)
+           cr \in {"32633", "4326", "3857", "utm55s_grs80", "tmerc_airy", "laea_custom"}, lv \in {"l2"}, d \in {"file"},
            \* pixel pattern: random values, or whole internal blocks of the valid value 0 / of the nodata value / of one constant among random ones
            pt \in {"random", "uniform_blocks"}}
 VARIABLE c
